@@ -266,6 +266,9 @@ mod serde_impls;
 /// Iterator types.
 pub mod iter;
 
+#[cfg(flurry_verif)]
+pub mod verif;
+
 pub use map::{HashMap, TryInsertError};
 pub use map_ref::HashMapRef;
 pub use set::HashSet;
